@@ -728,11 +728,26 @@ def rule_r17(prog, res):
              'type_info' in unparse(lp.iter)]
     res.floor('R17', 'member loops in complex_add', len(loops), 1)
     n = 0
+    # locals that hold an xs:choice element
+    choiceish = set()
+    for _ in range(3):
+        for a in walk_no_defs(f.node):
+            if isinstance(a, ast.Assign):
+                t = unparse(a.value)
+                if "XSD('choice')" in t or 'choice_tags' in t or any(
+                        isinstance(x, ast.Name) and x.id in choiceish
+                        for x in ast.walk(a.value)):
+                    for tg in a.targets:
+                        if isinstance(tg, ast.Name) and \
+                                tg.id != 'choice_tags':
+                            choiceish.add(tg.id)
     for c in calls_in(f.node):
         if not (call_name(c) in ('append', 'extend', 'insert') and isinstance(
                 c.func, ast.Attribute) and unparse(c.func.value) ==
-                'sequence' and any('choice_tags' in unparse(a)
-                                   for a in c.args)):
+                'sequence' and any(
+                    'choice_tags' in unparse(a) or any(
+                        isinstance(x, ast.Name) and x.id in choiceish
+                        for x in ast.walk(a)) for a in c.args)):
             continue
         n += 1
         inside = any(c in list(ast.walk(lp)) for lp in loops)
